@@ -19,6 +19,14 @@ CHECKS = {
   technique="Lean 4 proof (omega over regenerated field kernels, kernel-checked table + induction-free calendar proof of CPython's _ord2ymd) + differential correspondence (exhaustive over all ordinals in thorough)",
   text="TimeDelta days/seconds/microseconds/femtoseconds/yoctoseconds (regenerated) are proved normalized and to add up to floor(ticks*10^24/2^64); the regenerated __str__ is proved equal to the normal-form rendering of the value rounded to 1e-18 s (carry included). For every DateTime tick in [min,max] year/month/day (CPython's ord2ymd, proved to invert ymd2ord and to return valid dates for all 3 652 059 ordinals) together with the regenerated hour..yoctosecond identify exactly floor(ticks*10^24/2^64) ys after the epoch, and rebuilding from the fields (and from repr's shortened argument list) returns the same ticks. The real properties, constructor, repr/eval and str are compared with the models and with an independent civil-from-days oracle.",
   note="Trusted: as C02 plus Model/Calendar.lean (CPython's calendar algorithm; compared with date.fromordinal/toordinal, exhaustively in the thorough tier), Model/DtFields.lean (hightime ordinal arithmetic) and the text specification Model/TdText.lean (compared with str(datetime.timedelta)). str(DateTime) delegates to hightime/CPython and is decided by the oracle only."),
+ "C08": dict(
+  technique="Lean 4 proof (induction over the generator loop and over the monotonicity scan) + differential correspondence with an exact-integer oracle",
+  text="For every family range, timestamp, offset, interval (any sign or size), start index and count, list(get_timestamps(i,n)) of the model of REGULAR timing is proved to have exactly n items, the k-th being timestamp+offset+(i+k)*interval with no accumulated error, and to refuse only with OverflowError; IRREGULAR windows are proved to be exactly the stored slice or ValueError (never fewer items); missing timestamp information and negative arguments are proved to raise; the direction-accumulator scan is proved to accept exactly the non-decreasing or non-increasing sequences, and irregular construction to accept exactly those. The model is compared with real datetime/hightime/bintime Timing objects.",
+  note="Trusted: hand model NiVerif/Model/Timing.lean (tie: correspondence on seeded real Timing objects of all three families, windows in every relation to the stored count, adversarial sequences); exactness of same-family datetime+timedelta arithmetic is CPython/hightime behaviour (modelled as integer arithmetic with range checks) and C03 for bintime. Members of mixed families are outside the property's quantifier."),
+ "C20": dict(
+  technique="Lean 4 proof (case analysis over argument-kind predicates) + exhaustive differential correspondence over the whole mode x kind^4 matrix",
+  text="The model of Timing.__init__ (strategy lookup + the three validate_init_args bodies) is proved to accept exactly the member combinations each mode allows, to reject everything else with TypeError/ValueError, to store the members as given, to report has_* exactly, to raise RuntimeError for absent members, and equality is proved to be equality of mode and members; the named constructors are the general one. The real constructor is run on all 4 x 13^4 = 114 244 (mode, argument kinds) cells and compared with the model and with the property's table (exhaustive), plus equality pairs, named constructors and attribute protection.",
+  note="Trusted: hand model NiVerif/Model/Timing.lean, tied exhaustively on the finite matrix (one representative value per argument kind). Immutability of public names is Python attribute protection: observed directly (setattr/delattr raise AttributeError); the model simply has no mutating operation."),
 }
 def main():
     checks = []
